@@ -18,6 +18,8 @@ Step ==
   /\ LET e == TraceLog[l + 1]
          isQ == e.ev \in {"Query", "Probe"}
          s == PW!Summary(PW!InWindow(samples, now, win, maxn))
+         pr == IF e.ev = "Probe" THEN [is |-> TRUE, health |-> e.st, acked |-> e.acked, data |-> e.data, code |-> e.code]
+               ELSE NoProbe
          o == [cfg |-> cfgid, n |-> s.n, tot |-> s.tot, ec |-> s.ec, st |-> IF isQ THEN e.st ELSE "healthy", line |-> l + 1]
          Same(a, b) == a.cfg = b.cfg /\ a.n = b.n /\ a.tot = b.tot /\ a.ec = b.ec /\ a.st = b.st
          seen == \E b \in all : Same(o, b)
@@ -25,8 +27,6 @@ Step ==
          Partner(name) == LET bad == {b \in all : IF name = "C25_Monotone" THEN ~P(o, {b}, pr)!C25_Monotone
                                                    ELSE IF name = "C25_FunctionOfWindow" THEN ~P(o, {b}, pr)!C25_FunctionOfWindow ELSE FALSE}
                           IN IF bad = {} THEN 0 ELSE (CHOOSE b \in bad : \A c \in bad : b.line <= c.line).line
-         pr == IF e.ev = "Probe" THEN [is |-> TRUE, health |-> e.st, acked |-> e.acked, data |-> e.data, code |-> e.code]
-               ELSE NoProbe
      IN
      /\ win' = IF e.ev = "Reset" THEN e.win ELSE win
      /\ maxn' = IF e.ev = "Reset" THEN e.maxn ELSE maxn
